@@ -333,6 +333,10 @@ func (p *player) Bet(chips int64) error {
 		return ErrInvalidAction
 	}
 
+	if chips < 0 {
+		return ErrInvalidAction
+	}
+
 	//fmt.Printf("[Player %d] bet %d\n", p.idx, chips)
 
 	p.state.DidAction = "bet"
